@@ -23,6 +23,27 @@ R  event re-use: an event is played, one or two of its keys (freq, amp,
    instruments with and without a gate; the second `/s_new` (+ gate-off) must
    carry the values of the event as it is at the second play, fresh node id.
 
+Widened by the audit (all in the same families):
+
+P+ zero / negative / falsy control values, a sustain of zero, non-dyadic
+   time and latency, all 20 spellings of the add action, the group as a
+   Group / Synth object and as 0, an explicit `server` key (second server
+   with its own latency), the explicit type 'note', the entry points
+   sc3.base.play.play(dict) / play(**keys) / play(event) / play(dict, **keys),
+   the constructor forms event(**keys) / event(dict, **keys) / event(event),
+   an arrayed control (tuple / list value), the `variant` key, an instrument
+   that was never registered (only time, name, id, action, group decided).
+K+ float and far negative degrees, scales built by Scale.chromatic(tuning),
+   Scale(tuple, Tuning.et(12)), Scale(range) with 6 degrees.
+S+ Pconst as the dur pattern (cut and padded), Pdur(quant=), Pdur cutting int
+   deltas, key sets ((midinote, dur): pairs), deltas of zero, rests written
+   through amp / delta keys and Pdelta(Rest(t)), input events
+   (Pattern.play(proto=dict | event), Pchain(X, constant Pbind)), a constant
+   Pbind chained over Ppar/Pdur/Pseq, Pchain(..).chain(..), the entry points
+   play(pattern), EventStreamPlayer(stream, proto).play(clock[, reset=True]),
+   one pattern object played twice (overlapping or not), Pmono(articulate=
+   True) with uniform and mixed legato and rests.
+
 The oracle (mc/oracles/event_ref.py) never imports sc3; its don't-cares are
 listed in its docstring."""
 
@@ -41,11 +62,23 @@ CTRLS = ['freq', 'amp', 'pan', 'out', 'gate', 'cutoff']
 FULL = 63
 
 
+# instruments outside the 64 subsets: an arrayed control, a definition with
+# variants, a name nobody registered
+XINSTR = {'c14arr': ['freqs', 'amp'], 'c14var': ['freq', 'amp'],
+          'c14none': None}
+X_VARIANTS = {'c14var': {'a': {'amp': 0.9}}}
+X_DEFAULTS = {'freqs': '(1, 2, 3)'}
+OTHER_LAT_OFFSET = 0.125       # latency of the second server = lat + this
+OTHER_GROUP = 1                # its default group
+
+
 def instr_name(mask):
-    return f'c14i{mask}'
+    return mask if isinstance(mask, str) else f'c14i{mask}'
 
 
 def ctrls_of(name):
+    if name in XINSTR:
+        return list(XINSTR[name] or [])
     mask = int(name[4:])
     return [c for i, c in enumerate(CTRLS) if mask >> i & 1]
 
@@ -87,8 +120,34 @@ def worker_init():
         lg.propagate = False
     for mask in range(64):
         register(mask)
+    for name in XINSTR:
+        register_x(name)
     main.reset()
     _READY[0] = True
+
+
+def register_x(name):
+    from sc3.synth.synthdef import SynthDef
+    from sc3.synth.ugens import Out, DC
+    if XINSTR[name] is None:
+        return
+    src = 'def f(%s):\n    Out.ar(0, DC.ar(0))\n' % \
+        ', '.join(f'{c}={X_DEFAULTS.get(c, 0.5)}' for c in XINSTR[name])
+    ns = {'Out': Out, 'DC': DC}
+    exec(src, ns)
+    SynthDef(name, ns['f'], variants=X_VARIANTS.get(name)).add()
+
+
+_OTHER = []
+
+
+def other_server():
+    """A second server object (its own latency and node ids)."""
+    if not _OTHER:
+        from sc3.synth.server import Server
+        from sc3.base.netaddr import NetAddr
+        _OTHER.append(Server('c14other', NetAddr('127.0.0.1', 57999)))
+    return _OTHER[0]
 
 
 def register(mask):
@@ -187,6 +246,14 @@ _EXIT_CODE = _CallBudget.__exit__.__code__
 def lib_scale(name):
     from sc3.seq.scale import Scale, Tuning
     sp = ref.SCALES[name]
+    if name == 'chromatic_cm':
+        # (Scale.chromatic() without a tuning raises: Tuning.from_name has
+        # no registered names - outside this property)
+        return Scale.chromatic(Tuning.et(12))
+    if name == 'major_et12':
+        return Scale(tuple(sp['degrees']), Tuning.et(12))
+    if name == 'whole_rng':
+        return Scale(range(0, 12, 2))
     if sp['tuning'] is None:
         return Scale(sp['degrees'])
     return Scale(sp['degrees'], Tuning(sp['tuning'], sp['ratio']))
@@ -198,6 +265,27 @@ def lib_value(key, v):
         return Rest() if v['Rest'] is None else Rest(v['Rest'])
     if key == 'scale':
         return lib_scale(v)
+    if key == 'server':
+        if v != 'other':
+            raise core.HarnessError(f'bad server {v}')
+        return other_server()
+    if isinstance(v, dict):
+        if 'tuple' in v:
+            return tuple(v['tuple'])
+        from sc3.synth.server import Server
+        from sc3.synth.node import Group, Synth
+        if 'Group' in v:
+            return Group.basic_new(Server.default, v['Group'])
+        if 'Synth' in v:
+            return Synth.basic_new(instr_name(FULL), Server.default,
+                                   v['Synth'])
+        raise core.HarnessError(f'bad value {v}')
+    return v
+
+
+def group_number(v):
+    if isinstance(v, dict):
+        return v.get('Group', v.get('Synth'))
     return v
 
 
@@ -210,17 +298,34 @@ def lib_kwargs(given, scale_fn=False):
     return kw
 
 
+def lib_item(key, i):
+    if '+' in key:                      # key set: one value per key
+        return tuple(lib_value(k, x) for k, x in zip(key.split('+'), i))
+    return lib_value(key, i)
+
+
 def lib_vp(key, vp):
     from sc3.seq.patterns.listpatterns import Pseq
     from sc3.seq.patterns.valuepatterns import Pseries
+    from sc3.seq.patterns.filterpatterns import Pconst
     if isinstance(vp, list):
         if vp[0] == 'Pseq':
             rep = float('inf') if vp[2] == 'inf' else vp[2]
-            return Pseq([lib_value(key, i) for i in vp[1]], rep)
+            return Pseq([lib_item(key, i) for i in vp[1]], rep)
         if vp[0] == 'Pseries':
             return Pseries(vp[1], vp[2])
+        if vp[0] == 'Pconst':
+            return Pconst(lib_vp(key, vp[1]), vp[2])
         raise core.HarnessError(f'bad value pattern {vp}')
     return lib_value(key, vp)
+
+
+def lib_key(k):
+    return tuple(k.split('+')) if '+' in k else k
+
+
+def pat_opts(p, i):
+    return p[i] if len(p) > i and isinstance(p[i], dict) else {}
 
 
 def lib_pattern(p, memo=None):
@@ -244,17 +349,30 @@ def _lib_pattern(p, memo):
     def lib_pattern(c):
         return globals()['lib_pattern'](c, memo)
     if h == 'Pbind':
-        return ep.Pbind({k: lib_vp(k, v) for k, v in p[1].items()})
+        return ep.Pbind({lib_key(k): lib_vp(k, v) for k, v in p[1].items()})
     if h == 'Pmono':
-        return ep.Pmono(p[1], {k: lib_vp(k, v) for k, v in p[2].items()})
+        d = {lib_key(k): lib_vp(k, v) for k, v in p[2].items()}
+        if pat_opts(p, 3).get('articulate'):
+            return ep.Pmono(p[1], d, articulate=True)
+        return ep.Pmono(p[1], d)
     if h == 'Pchain':
-        return ep.Pchain(*[lib_pattern(c) for c in p[1]])
+        kids = [lib_pattern(c) for c in p[1]]
+        if pat_opts(p, 2).get('chain'):
+            # the same composition through the chain() method
+            out = ep.Pchain(kids[0])
+            for k in kids[1:]:
+                out = out.chain(k)
+            return out
+        return ep.Pchain(*kids)
     if h == 'Ppar':
         return ep.Ppar(*[lib_pattern(c) for c in p[1]])
     if h == 'Pdur':
+        q = pat_opts(p, 3).get('quant')
+        if q is not None:
+            return fp.Pdur(p[1], lib_pattern(p[2]), quant=q)
         return fp.Pdur(p[1], lib_pattern(p[2]))
     if h == 'Pdelta':
-        return fp.Pdelta(p[1], lib_pattern(p[2]))
+        return fp.Pdelta(lib_value('dur', p[1]), lib_pattern(p[2]))
     if h == 'Pseq':
         return Pseq([lib_pattern(c) for c in p[1]])
     raise core.HarnessError(f'bad pattern {p}')
@@ -367,13 +485,35 @@ def parse_score(score):
 
 def pairs_of(rest):
     """control/value list -> (dict, problem)"""
+    if '[' in rest or ']' in rest:
+        # an arrayed value travels as '[' v0 v1 ... ']'
+        folded, cur = [], None
+        for x in rest:
+            if x == '[' and cur is None:
+                cur = []
+            elif x == ']' and cur is not None:
+                folded.append(cur)
+                cur = None
+            elif x in ('[', ']'):
+                return None, 'unbalanced array brackets'
+            elif cur is not None:
+                cur.append(x)
+            else:
+                folded.append(x)
+        if cur is not None:
+            return None, 'unbalanced array brackets'
+        rest = folded
     if len(rest) % 2:
         return None, 'odd number of control arguments'
     d = {}
     for k, v in zip(rest[::2], rest[1::2]):
         if not isinstance(k, str):
             return None, f'control name {k!r} is not a string'
-        if isinstance(v, bool) or not isinstance(v, (int, float)):
+        if isinstance(v, list):
+            if not v or any(isinstance(x, bool) or
+                            not isinstance(x, (int, float)) for x in v):
+                return None, f'value {v!r} of {k} is not a list of numbers'
+        elif isinstance(v, bool) or not isinstance(v, (int, float)):
             return None, f'value {v!r} of {k} is not a number'
         if k in d:
             return None, f'control {k} given twice'
@@ -390,6 +530,8 @@ def tag_of(pairs):
 
 def cmp_pairs(pre, spec, pairs, ctrls, out):
     """Compare the control/value dict of a message with a note_spec."""
+    if spec.get('free'):
+        return            # controls of the instrument unknown: not decided
     for c, cands in spec['required'].items():
         if c not in pairs:
             out.append((f'{pre}-control-missing', {c: cands}, pairs,
@@ -423,6 +565,7 @@ def compare(expected, score, lat):
        (t = logical start time, latency not included).
     -> list of (disc, expected, observed, detail)"""
     out = []
+    lat0 = lat
     snew, nset, nfree, other = parse_score(score)
     for o in other:
         out.append(('unexpected-message', None, o, ''))
@@ -499,15 +642,17 @@ def compare(expected, score, lat):
         s = matched.get(i)
         if s is None:
             out.append(('note-missing',
-                        [e['t'] + lat, a['instr'], e['tag']],
+                        [e['t'] + a.get('lat', lat0), a['instr'], e['tag']],
                         [[x['t'], x['name'], x['rest']] for x in snew], ''))
             continue
         ctrls = ctrls_of(a['instr'])
+        lat = a.get('lat', lat0)     # an event may name its own server
         if not ref.close(s['t'], e['t'] + lat):
             out.append(('snew-time', e['t'] + lat, s['t'],
                         f'logical start {e["t"]} + latency {lat}'))
-        if s['name'] != a['instr']:
-            out.append(('snew-name', a['instr'], s['name'], ''))
+        if s['name'] not in a.get('names', [a['instr']]):
+            out.append(('snew-name', a.get('names', a['instr']), s['name'],
+                        ''))
         if s['action'] != a['action'] or isinstance(s['action'], bool):
             out.append(('snew-add-action', a['action'], s['action'], ''))
         if s['group'] != a['group'] or isinstance(s['group'], bool):
@@ -526,7 +671,9 @@ def compare(expected, score, lat):
                 if n['id'] == s['id']:
                     out.append(('unexpected-message', None,
                                 ['/n_free', n['id']], ''))
-            if e['spec']['has_gate']:
+            if e['spec']['has_gate'] is None:
+                pass          # unknown instrument: release not decided
+            elif e['spec']['has_gate']:
                 want = e['t'] + lat + e['spec']['sustain']
                 if not gateoffs:
                     out.append(('gateoff-missing', want, None,
@@ -669,12 +816,13 @@ def check_K(case, info):
 
 
 PV = {'freq': [440.0, 100.0], 'midinote': [69, 60.5], 'note': [7, 0, -3],
-      'degree': [2, 0, 7, -1]}
+      'degree': [2, 0, 7, -1, 3.0, -8]}
 MAINS = ['freq', 'midinote', 'note', 'degree']
 MODS = {'mtranspose': [1, -2], 'gtranspose': [1, 0.5], 'octave': [4, 6.0],
         'root': [2, -1], 'harmonic': [2, 0.5], 'detune': [3, -1.5],
         'ctranspose': [1, -12]}
-SCALES_Q = [None, 'major_x', 'minorpent', 'chromatic', 'major_just']
+SCALES_Q = [None, 'major_x', 'minorpent', 'chromatic', 'major_just',
+            'chromatic_cm', 'major_et12', 'whole_rng']
 SCALES_T = SCALES_Q + ['major_et24', 'bp']
 AMPV = {'amp': [0.25], 'db': [-6, 0], 'velocity': [64, 127]}
 DURV = {'dur': [0.5, 2], 'stretch': [2, 0.5], 'legato': [0.5, 1.0],
@@ -846,18 +994,157 @@ def gen_P_pairs(tier):
                         {'instr': m2, 'given': g2, 'wait': wait}]}
 
 
+# ---- extension: values, spellings, objects and entry points the first
+# generator does not contain
+
+PX_EVENTS = [
+    {'freq': 330.0, 'amp': 0.25, 'pan': 0.5, 'out': 2, 'cutoff': 300},
+    {'degree': 2, 'db': -6},
+    # zero / falsy values are values
+    {'freq': 100, 'amp': 0, 'pan': 0, 'out': 0, 'cutoff': 0},
+    {'midinote': 60, 'amp': 0.0, 'pan': -1.0, 'out': 0.0, 'cutoff': -5},
+    {'note': 0, 'velocity': 0, 'pan': -0.25},
+    {},
+]
+PX_ACTIONS = ['addToHead', 'addToTail', 'addBefore', 'addAfter',
+              'addReplace', 'head', 'tail', 'before', 'after', 'replace',
+              'h', 't', 'b', 'a', 'r', 0, 1, 2, 3, 4]
+PX_VIA = ['play_dict', 'play_kwargs', 'play_obj', 'play_dict_kwargs',
+          'ctor_kwargs', 'ctor_mixed', 'ctor_copy']
+
+
+def px_contexts():
+    """(at, lat, extra keys, via)"""
+    out = []
+    for i, a in enumerate(PX_ACTIONS):
+        out.append((0.5 if i % 2 else None, 0.25,
+                    {'add_action': a, 'group': 7 + i}, 'method'))
+    out += [(0.5, 0.25, {'group': {'Group': 1234}}, 'method'),
+            (None, 0, {'group': {'Synth': 1235}, 'add_action': 'addAfter'},
+             'method'),
+            (0.5, 0.25, {'group': 0}, 'method'),
+            (0.5, 0.25, {'server': 'other'}, 'method'),
+            (None, 0, {'server': 'other', 'legato': 0.5}, 'method'),
+            (0.5, 0.25, {'type': 'note'}, 'method'),
+            # a sustain of zero is a sustain; non-dyadic time and latency
+            (0.5, 0.25, {'sustain': 0}, 'method'),
+            (None, 0.25, {'legato': 0}, 'method'),
+            (0.75, 0, {'dur': 0, 'legato': 2}, 'method'),
+            (1 / 3, 0.1, {'dur': 0.3, 'legato': 0.7}, 'method'),
+            (0.1, 0.2, {'sustain': 0.1}, 'method')]
+    for v in PX_VIA:
+        out += [(None, 0.25, {}, v), (0.5, 0, {'legato': 0.5}, v),
+                (1.25, 0.25, {'add_action': 'addToTail', 'group': 7}, v)]
+    return out
+
+
+def gen_P_ext(tier):
+    masks = list(range(64))          # both tiers (cheap)
+    for mask in masks:
+        for g in PX_EVENTS:
+            for at, lat, extra, via in px_contexts():
+                ev = {'instr': mask, 'given': dict(g, **extra), 'wait': 0}
+                if via != 'method':
+                    ev['via'] = via
+                yield {'fam': 'P', 'at': at, 'lat': lat, 'events': [ev]}
+    # an arrayed control; the variant key; an instrument nobody registered
+    for at, lat in ((None, 0.25), (0.5, 0)):
+        for fr in ({'tuple': [100, 200, 300]}, [100, 200.5, 300],
+                   {'tuple': [0, 0, 0]}, None):
+            for am in ({}, {'amp': 0.25}, {'amp': 0}):
+                g = dict(am)
+                if fr is not None:
+                    g['freqs'] = fr
+                yield {'fam': 'P', 'at': at, 'lat': lat, 'events': [
+                    {'instr': 'c14arr', 'given': g, 'wait': 0}]}
+        for instr in ('c14var', 19, 3):
+            for g in ({'variant': 'a'}, {'variant': 'a', 'freq': 330.0,
+                                         'amp': 0.25}):
+                yield {'fam': 'P', 'at': at, 'lat': lat, 'events': [
+                    {'instr': instr, 'given': g, 'wait': 0}]}
+        yield {'fam': 'P', 'at': at, 'lat': lat, 'events': [
+            {'instr': 'c14var', 'given': {'freq': 330.0}, 'wait': 0}]}
+        for g in ({}, {'freq': 330.0, 'amp': 0.25}, {'degree': 2,
+                                                     'sustain': 0.5}):
+            yield {'fam': 'P', 'at': at, 'lat': lat, 'events': [
+                {'instr': 'c14none', 'given': g, 'wait': 0}]}
+
+
+def p_feature(case):
+    """Kind suffix: situations with a known finding of their own."""
+    for e in case['events']:
+        if e['instr'] == 'c14none':
+            return '@unregistered-instrument'
+        if 'variant' in e['given']:
+            return '@variant'
+    return ''
+
+
+def play_event(e):
+    """Play one event of a P case through the entry point it names."""
+    from sc3.seq.event import event
+    from sc3.base.play import play
+    kw = lib_kwargs(dict(e['given'], instrument=instr_name(e['instr'])))
+    via = e.get('via', 'method')
+    if via == 'method':
+        event(kw).play()
+    elif via == 'play_dict':
+        play(kw)
+    elif via == 'play_kwargs':
+        play(**kw)
+    elif via == 'play_obj':
+        play(event(kw))
+    elif via == 'play_dict_kwargs':
+        ks = sorted(kw)
+        play({k: kw[k] for k in ks[::2]}, **{k: kw[k] for k in ks[1::2]})
+    elif via == 'ctor_kwargs':          # the other forms of the constructor
+        event(**kw).play()
+    elif via == 'ctor_mixed':
+        ks = sorted(kw)
+        event({k: kw[k] for k in ks[::2]},
+              **{k: kw[k] for k in ks[1::2]}).play()
+    elif via == 'ctor_copy':
+        event(event(kw)).play()
+    else:
+        raise core.HarnessError(f'bad via {via}')
+
+
+def p_expect(e, t, lat):
+    g = e['given']
+    name = instr_name(e['instr'])
+    spec = ref.note_spec(g, ctrls_of(name))
+    if name == 'c14arr':
+        # note_spec knows scalar controls only
+        fr = g.get('freqs')
+        if fr is not None:
+            spec['required']['freqs'] = [fr['tuple'] if isinstance(fr, dict)
+                                         else fr]
+    x = {'kind': 'note', 't': t, 'instr': name, 'tag': None,
+         'action': ref.add_action_number(g.get('add_action', 'addToHead')),
+         'group': group_number(g.get('group', 1)), 'spec': spec}
+    if XINSTR.get(name, 0) is None:
+        spec['free'] = True
+        spec['has_gate'] = None
+    if 'variant' in g and name in X_VARIANTS:
+        # Event help: the definition's variant is addressed as name.variant;
+        # the statement only says "the instrument name": both accepted
+        x['names'] = [name, f'{name}.{g["variant"]}']
+    if g.get('server') == 'other':
+        x['lat'] = lat + OTHER_LAT_OFFSET
+        x['group'] = group_number(g.get('group', OTHER_GROUP))
+    return x
+
+
 def check_P(case, info):
     evs = case['events']
     at, lat = case['at'], case['lat']
+    feat = p_feature(case)
 
     def body_all():
-        from sc3.seq.event import event
         for e in evs:
-            kw = dict(e['given'], instrument=instr_name(e['instr']))
-            event(lib_kwargs(kw)).play()
+            play_event(e)
 
     def body_seq():
-        from sc3.seq.event import event
         from sc3.base import stream as stm
 
         def rfunc():
@@ -866,9 +1153,10 @@ def check_P(case, info):
             for e in evs:
                 if e['wait']:
                     yield e['wait']
-                kw = dict(e['given'], instrument=instr_name(e['instr']))
-                event(lib_kwargs(kw)).play()
+                play_event(e)
         stm.Routine(rfunc).play()
+    if any(e['given'].get('server') == 'other' for e in evs):
+        other_server().latency = lat + OTHER_LAT_OFFSET
     waits = any(e['wait'] for e in evs)
     if waits:
         r = run_score(lat, body_seq, at=None, budget=False)
@@ -876,20 +1164,15 @@ def check_P(case, info):
         r = run_score(lat, body_all, at=at, budget=False)
     info['outcome'] = renumber(r['score']) if r['score'] else r['exc']
     if r['score'] is None or r['log']:
-        return desc_disc(r, 'P:') + [('P:play-raises', f'{len(evs)} /s_new',
+        return desc_disc(r, 'P:') + [(f'P:play-raises{feat}',
+                                      f'{len(evs)} /s_new',
                                       r['exc'] or r['log'], '')]
     exp, t = [], (at or 0)
     for e in evs:
         t += e['wait']
-        g = e['given']
-        exp.append({'kind': 'note', 't': t, 'instr': instr_name(e['instr']),
-                    'action': ref.ADD_ACTIONS[g.get('add_action',
-                                                    'addToHead')],
-                    'group': g.get('group', 1), 'tag': None,
-                    'spec': ref.note_spec(g, ctrls_of(instr_name(
-                        e['instr'])))})
+        exp.append(p_expect(e, t, lat))
     return desc_disc(r, 'P:') + [
-        (f'P:{disc}', e, o, det)
+        (f'P:{disc}{feat}', e, o, det)
         for disc, e, o, det in compare(exp, r['score'], lat)]
 
 
@@ -900,6 +1183,8 @@ def nontrivial_P(case):
     if len(case['events']) > 1:
         return True
     e = case['events'][0]
+    if isinstance(e['instr'], str):
+        return bool(e['given'])
     cs = set(ctrls_of(instr_name(e['instr']))) - {'gate'}
     ks = {k for k in e['given'] if k in CTRLS or k in ('degree', 'db')}
     ks = {('freq' if k == 'degree' else 'amp' if k == 'db' else k)
@@ -1031,6 +1316,13 @@ def leaf(durs, base, instr=I_FA, extra=None, rest=None, inf=False):
             tags[i] = {'Rest': None}
         elif form == 'dur':
             durv[i] = {'Rest': durv[i]}
+        elif form == 'amp':
+            # a rest through a key that is neither pitch nor duration
+            d['amp'] = ['Pseq', [{'Rest': 0.1} if j == i else 0.2
+                                 for j in range(n)], 'inf' if inf else 1]
+        elif form == 'delta':
+            d['delta'] = ['Pseq', [{'Rest': durv[j]} if j == i else durv[j]
+                                   for j in range(n)], 'inf' if inf else 1]
     if inf:
         d['midinote'] = ['Pseries', base, 1] if rest is None or \
             rest[1] != 'key' else ['Pseq', tags, 'inf']
@@ -1047,10 +1339,35 @@ def pb(*a, **k):
     return ['Pbind', leaf(*a, **k)]
 
 
-def pm(durs, base, instr=I_FAG, **k):
+def pm(durs, base, instr=I_FAG, artic=False, **k):
     d = leaf(durs, base, instr, **k)
     del d['instrument']
+    if artic:
+        return ['Pmono', instr_name(instr), d, {'articulate': True}]
     return ['Pmono', instr_name(instr), d]
+
+
+def pbc(durs, base, total, instr=I_FA, inf=True):
+    """Pbind whose dur pattern is limited by Pconst(.., total)."""
+    d = leaf(durs, base, instr, inf=True)
+    d['dur'] = ['Pconst', ['Pseq', list(durs), 'inf' if inf else 1], total]
+    return ['Pbind', d]
+
+
+def pbk(durs, base, instr=I_FAG, rest=None, second='dur'):
+    """Pbind with the key set (midinote, dur) [or (midinote, legato)] fed
+    by one pattern of pairs."""
+    d = {'instrument': instr_name(instr)}
+    tags = [base + i for i in range(len(durs))]
+    if rest is not None:
+        tags[rest] = {'Rest': None}
+    if second == 'dur':
+        d['midinote+dur'] = ['Pseq', [[t, x] for t, x in zip(tags, durs)], 1]
+    else:
+        d['midinote+legato'] = ['Pseq', [[t, 0.5 + 0.25 * i] for i, t in
+                                         enumerate(tags)], 1]
+        d['dur'] = ['Pseq', list(durs), 1]
+    return ['Pbind', d]
 
 
 EXTRAS = [None, {'stretch': 2}, {'legato': 0.5, 'amp': 0.25},
@@ -1068,9 +1385,11 @@ def gen_S(tier):
     dmax = d3 if q else dur_seqs(4)
     lat = 0.25
 
-    def case(p, start=None, lt=lat):
+    def case(p, start=None, lt=lat, **opts):
         at, clock = start or STARTS[0]
-        return {'fam': 'S', 'pat': p, 'at': at, 'clock': clock, 'lat': lt}
+        c = {'fam': 'S', 'pat': p, 'at': at, 'clock': clock, 'lat': lt}
+        c.update(opts)
+        return c
     # S1 single Pbind
     for ds in dmax:
         for instr in (I_FA, I_FAG):
@@ -1083,7 +1402,7 @@ def gen_S(tier):
     # S1r rests in a Pbind stream
     for ds in d3:
         for i in range(len(ds)):
-            for form in ('type', 'key', 'dur'):
+            for form in ('type', 'key', 'dur', 'amp', 'delta'):
                 yield case(pb(ds, 40, I_FAG, rest=(i, form)))
     # S2 Pmono
     for ds in dmax:
@@ -1107,6 +1426,8 @@ def gen_S(tier):
             yield case(['Ppar', [pm(a, 40), pb(b, 60)]], STARTS[1])
             yield case(['Ppar', [pb(a, 40, rest=(0, 'dur')),
                                  pb(b, 60, rest=(len(b) - 1, 'key'))]])
+            yield case(['Ppar', [pb(a, 40, rest=(len(a) - 1, 'delta')),
+                                 pb(b, 60, I_FAG, rest=(0, 'amp'))]])
     # S4 Pchain: the left Pbind overrides dur
     for a in d2 if q else d3:
         for b in d3:
@@ -1168,6 +1489,12 @@ def gen_S(tier):
                 yield case(['Ppar', [pb(a, 40), ['Pdelta', t, pb(b, 60)]]])
                 yield case(['Pdelta', t, ['Ppar', [pb(a, 40), pb(b, 60)]]],
                            STARTS[1])
+        for a in d2:
+            for b in d2:
+                yield case(['Ppar', [pb(a, 40), ['Pdelta', {'Rest': t},
+                                                 pb(b, 60, I_FAG)]]])
+            yield case(['Pseq', [pb(a, 40), ['Pdelta', {'Rest': t}, MARK]]])
+    yield from gen_S_more(tier, case)
     # S7 nesting
     for a in d2:
         for d in (0.75, 1.5):
@@ -1192,6 +1519,138 @@ def gen_S(tier):
                 yield case(['Ppar', [pm(a, 40), pm(b, 60, I_FA)]])
                 yield case(['Ppar', [pb(a, 40), ['Pdelta', 0.75,
                                                  pb(b, 60)]]])
+
+
+def gen_S_more(tier, case):
+    """Situations the statement covers that the first families lack: value-
+    level duration limit (Pconst), Pdur with quant, key sets, simultaneous
+    events (delta 0), input events (proto / right operand of Pchain),
+    Pchain over a composition and through chain(), other entry points, one
+    pattern object played twice, PmonoArtic."""
+    q = tier == 'quick'
+    d2, d3 = dur_seqs(2), dur_seqs(3)
+    dd = d2 if q else d3
+    # S9 Pconst limits the dur values of a Pbind
+    for total in (0.75, 1.25, 2) if q else (0.5, 0.75, 1.25, 2, 3.5):
+        for ds in dd:
+            yield case(['Pseq', [pbc(ds, 40, total), MARK]])
+            yield case(['Pseq', [pbc(ds, 40, total, inf=False), MARK]])
+            yield case(['Ppar', [pbc(ds, 40, total, I_FAG),
+                                 pb([0.5, 0.5], 60, I_FAG)]], STARTS[1])
+    for total in (0.5, 1.25, 3.5):
+        for ds in ([1 / 3], [0.3], [0.7 / 3, 0.3], [0.1, 1 / 3]):
+            if ds == [0.1, 1 / 3] and total == 0.5:
+                continue
+            yield case(['Pseq', [pbc(ds, 40, total), MARK]])
+    # S9b Pdur cutting events whose delta is an int (int dur x int stretch,
+    # an explicit int delta) or a float given through stretch / delta
+    for d in (0.75, 1.25, 2.5):
+        for ex in ({'stretch': 2}, {'stretch': 2.0}, {'delta': 1},
+                   {'delta': 1.0}, {'stretch': 1}):
+            for ds in ([1], [0.5, 1], [1, 1]):
+                yield case(['Pseq', [['Pdur', d, pb(ds, 40, I_FAG, inf=True,
+                                                    extra=ex)], MARK]])
+    # S10 Pdur with quant: a child that ends before the limit is followed by
+    # a rest up to the next multiple of quant; a cut child is not
+    for qt in (0.5, 1, 0.75):
+        for ds in d3:
+            tot = sum(ds)
+            for d in (2, 4):
+                if tot < d and -(-tot // qt) * qt <= d:
+                    yield case(['Pseq', [['Pdur', d, pb(ds, 40, I_FAG),
+                                          {'quant': qt}], MARK]])
+        for ds in d2:
+            yield case(['Pseq', [['Pdur', 0.75, pb(ds, 40, inf=True),
+                                  {'quant': qt}], MARK]])
+            yield case(['Ppar', [['Pdur', 4, ['Ppar', [
+                pb(ds, 40), pb([0.25], 60)]], {'quant': qt}],
+                ['Pdelta', 4, MARK]]])
+    # S11 key sets
+    for ds in d3:
+        yield case(pbk(ds, 40))
+        yield case(pbk(ds, 40, second='legato'), STARTS[1])
+        for i in range(len(ds)):
+            yield case(pbk(ds, 40, rest=i))
+    for a in d2:
+        for b in d2:
+            yield case(['Ppar', [pbk(a, 40), pbk(b, 60, I_FA)]])
+    # S12 simultaneous events: a delta of zero
+    dz = [list(c) for n in (1, 2, 3)
+          for c in itertools.product([0, 0.25, 0.5], repeat=n) if 0 in c]
+    for ds in dz:
+        yield case(pb(ds, 40, I_FAG))
+        yield case(['Ppar', [pb(ds, 40), pb([0.5, 0.25], 60, I_FAG)]])
+        yield case(['Pseq', [pb(ds, 40), MARK]], STARTS[1])
+        if sum(ds) > 0:
+            yield case(['Pseq', [['Pdur', 0.75, pb(ds, 40, inf=True)],
+                                 MARK]])
+        if len(ds) > 1:
+            yield case(pm(ds, 40))
+    # S14 input events
+    protos = [{'amp': 0.3}, {'stretch': 2}, {'stretch': 0.5, 'legato': 0.5}]
+    for a in d2:
+        for b in ([[0.5], [0.25, 1]] if q else d2):
+            xs = [pb(a, 40, I_FAG), ['Ppar', [pb(a, 40), pb(b, 60, I_FAG)]],
+                  ['Pseq', [['Pdur', 0.75, pb(a, 40, inf=True)], MARK]],
+                  ['Pseq', [['Ppar', [pb(a, 40), pb(b, 60)]], MARK]],
+                  pm(a, 40)]
+            for i, x in enumerate(xs):
+                for j, pr in enumerate(protos):
+                    yield case(x, STARTS[(i + j) % 2], proto=pr,
+                               proto_event=bool(j % 2))
+                    yield case(['Pchain', [x, ['Pbind', pr]]])
+                if x[0] != 'Pmono' and x[0] != 'Pbind':
+                    yield case(['Pchain', [['Pbind', {'amp': 0.3}], x]])
+                    yield case(['Pchain', [['Pbind', {'legato': 0.5,
+                                                      'amp': 0.3}], x]])
+    for a in d2:
+        for b in d3:
+            left = ['Pbind', {'dur': ['Pseq', a, 1]}]
+            yield case(['Pchain', [left, pb(b, 40, I_FAG)], {'chain': True}])
+    for b in d3:
+        yield case(['Pchain', [['Pbind', {'stretch': 2, 'amp': 0.25}],
+                               ['Pbind', {'legato': 0.5}],
+                               pb(b, 40, I_FAG)], {'chain': True}])
+    # S15 entry points
+    for a in d2:
+        b = [0.5, 0.25]
+        for x in (pb(a, 40, I_FAG), ['Ppar', [pb(a, 40), pb(b, 60, I_FAG)]],
+                  pm(a, 40), ['Pseq', [['Pdur', 0.75, pb(a, 40, inf=True)],
+                                       MARK]]):
+            for via in ('fn', 'esp', 'esp_reset'):
+                yield case(x, STARTS[0], via=via)
+                yield case(x, STARTS[1], via=via, proto={'amp': 0.3})
+                yield case(x, [0.5, 'tempo'], 0, via=via)
+    # S16 one pattern object played again while (or after) the first player
+    # runs
+    for a in d2:
+        for b in ([[0.5], [0.25, 0.25]] if q else d2):
+            for x in (pb(a, 40, I_FAG),
+                      ['Ppar', [pb(a, 40), pb(b, 60, I_FAG)]],
+                      ['Pdur', 0.75, ['Ppar', [pb(a, 40, inf=True),
+                                               pb(b, 60, inf=True)]]],
+                      pm(a, 40),
+                      ['Pchain', [['Pbind', {'legato': 0.5}], pb(a, 40)]]):
+                for w in (0.25, 1) if q else (0.25, 0.5, 1, 2):
+                    yield case(x, STARTS[1], again=w)
+    # S17 PmonoArtic
+    legs = [None, 1, 0.5, 1.5, ['Pseq', [1, 0.5, 1], 1],
+            ['Pseq', [0.5, 1, 1], 1], ['Pseq', [1, 1, 0.5], 1]]
+    for ds in d3:
+        for lg in legs:
+            if isinstance(lg, list) and len(ds) < 2:
+                continue
+            ex = None if lg is None else {'legato': lg}
+            yield case(pm(ds, 40, I_FAG, artic=True, extra=ex))
+            yield case(pm(ds, 40, I_FA, artic=True, extra=ex), STARTS[1])
+        for i in range(len(ds)):
+            for form in ('key', 'dur'):
+                yield case(pm(ds, 40, I_FAG, artic=True, rest=(i, form),
+                              extra={'legato': 1}))
+    for a in d2:
+        for b in d2:
+            yield case(['Ppar', [pm(a, 40, artic=True, extra={'legato': [
+                'Pseq', [1, 0.5], 1]}), pb(b, 60)]])
 
 
 def pat_children(p):
@@ -1219,13 +1678,23 @@ def leaf_variant(p):
     """Label of a Pbind/Pmono leaf: head + rest form / duration keys used."""
     d = p[1] if p[0] == 'Pbind' else p[2]
     v = p[0]
+    if p[0] == 'Pmono' and pat_opts(p, 3).get('articulate'):
+        v += '+artic'
     forms = set()
     if 'type' in d:
         forms.add('resttype')
     for k, vp in d.items():
         items = vp[1] if isinstance(vp, list) and vp[0] == 'Pseq' else [vp]
+        if '+' in k:
+            forms.add('keyset')
+            items = [x for i in items for x in i]
+        if isinstance(vp, list) and vp[0] == 'Pconst':
+            forms.add('pconst')
         if any(ref.is_rest_marker(i) for i in items):
             forms.add('restdur' if k == 'dur' else 'restkey')
+        if any(i == 0 and not isinstance(i, bool) for i in items) and \
+                k in ('dur', 'delta'):
+            forms.add('zerodur')
     for f in sorted(forms):
         v += '+' + f
     for k in ('delta', 'stretch'):
@@ -1237,25 +1706,92 @@ def leaf_variant(p):
 def label(p):
     if p[0] in ('Pbind', 'Pmono'):
         return leaf_variant(p)
-    return p[0] + '(' + ','.join(sorted({c[0] for c in pat_children(p)})) + ')'
+    head = p[0]
+    if head == 'Pdur' and pat_opts(p, 3).get('quant') is not None:
+        head += '+quant'
+    if head == 'Pdelta' and ref.is_rest_marker(p[1]):
+        head += '+rest'
+    return head + '(' + ','.join(sorted({c[0] for c in pat_children(p)})) + ')'
 
 
-def run_S(pat, at, clock, lat, share=False):
-    def body():
-        p = lib_pattern(pat, {} if share else None)
+S_OPT_KEYS = ('share', 'proto', 'via', 'again')
+
+
+def s_opts(case):
+    return {k: case[k] for k in S_OPT_KEYS if case.get(k) is not None}
+
+
+def run_S(pat, at, clock, lat, opts=None):
+    """opts: share (one library object per distinct sub-pattern), proto (the
+    input event given to the player), via (entry point: 'play' = the
+    pattern's method, 'fn' = sc3.base.play.play(pattern), 'esp' = an
+    EventStreamPlayer built by hand, 'esp_reset' = the same started with
+    play(reset=True)), again (the same pattern OBJECT is played a second
+    time this many seconds later, from the same routine)."""
+    opts = opts or {}
+    proto, via, again = opts.get('proto'), opts.get('via', 'play'), \
+        opts.get('again')
+
+    def start(p):
+        kw = {}
+        if proto is not None:
+            pe = lib_kwargs(proto)
+            if opts.get('proto_event'):
+                from sc3.seq.event import event
+                pe = event(pe)
+            kw['proto'] = pe
+        clk = None
         if clock == 'tempo':
             from sc3.base.clock import TempoClock
-            p.play(TempoClock(1))
+            clk = TempoClock(1)
+        if via == 'play':
+            if clk is not None:
+                p.play(clk, **kw)
+            else:
+                p.play(**kw)
+        elif via == 'fn':
+            from sc3.base.play import play
+            if clk is not None:
+                play(p, clk, **kw)
+            else:
+                play(p, **kw)
+        elif via in ('esp', 'esp_reset'):
+            from sc3.seq.eventstream import EventStreamPlayer
+            from sc3.base import stream as stm
+            args = [stm.stream(p)] + ([kw['proto']] if kw else [])
+            esp = EventStreamPlayer(*args)
+            if via == 'esp_reset':
+                esp.play(clk, reset=True)
+            else:
+                esp.play(clk)
         else:
-            p.play()
+            raise core.HarnessError(f'bad via {via}')
+
+    def body():
+        p = lib_pattern(pat, {} if opts.get('share') else None)
+        if again is None:
+            start(p)
+            return
+        from sc3.base import stream as stm
+
+        def rfunc():
+            start(p)
+            yield again
+            start(p)
+        stm.Routine(rfunc).play()
     return run_score(lat, body, at=at)
 
 
-def discs_S(pat, at, clock, lat, info=None, share=False):
-    r = run_S(pat, at, clock, lat, share)
+def discs_S(pat, at, clock, lat, info=None, opts=None):
+    opts = opts or {}
+    r = run_S(pat, at, clock, lat, opts)
     if info is not None:
         info['outcome'] = renumber(r['score']) if r['score'] else r['exc']
-    evs, total = ref.denote(pat)
+    ids = [0]
+    evs, total = ref.denote(pat, _ids=ids, proto=opts.get('proto'))
+    if opts.get('again') is not None:
+        evs2, _ = ref.denote(pat, _ids=ids, proto=opts.get('proto'))
+        evs = evs + [dict(e, t=e['t'] + opts['again']) for e in evs2]
     start = at or 0
     exp, voices, resttags = [], {}, set()
     for e in evs:
@@ -1309,8 +1845,9 @@ def endless(p):
     h = p[0]
     if h in ('Pbind', 'Pmono'):
         d = p[1] if h == 'Pbind' else p[2]
-        return not any(isinstance(v, list) and v[0] == 'Pseq'
-                       and v[2] != 'inf' for v in d.values())
+        return not any(isinstance(v, list) and (
+            v[0] == 'Pseq' and v[2] != 'inf' or v[0] == 'Pconst')
+            for v in d.values())
     if h == 'Pchain':
         return all(endless(c) for c in p[1])
     if h == 'Pdur':
@@ -1318,29 +1855,44 @@ def endless(p):
     return any(endless(c) for c in pat_children(p))
 
 
-def blame(pat, at, clock, lat, disc):
-    """Smallest sub-pattern that shows the same disagreement class."""
+def blame(pat, at, clock, lat, disc, opts=None):
+    """Smallest sub-pattern that shows the same disagreement class (played
+    through the same entry point, with the same input event)."""
     for c in pat_children(pat):
-        if c[0] == 'Pbind' and 'midinote' not in c[1]:
+        if c[0] == 'Pbind' and not any('midinote' in k for k in c[1]):
             continue                      # override-only Pbind of a Pchain
         if endless(c):
             continue                      # cannot be played without its Pdur
-        if disc in discs_S(c, at, clock, lat):
-            return blame(c, at, clock, lat, disc)
+        try:
+            found = disc in discs_S(c, at, clock, lat, None, opts)
+        except ValueError:
+            continue                      # outside the reference on its own
+        if found:
+            return blame(c, at, clock, lat, disc, opts)
     return pat
 
 
 def check_S(case, info):
     pat, at, clock, lat = case['pat'], case['at'], case['clock'], case['lat']
     share = bool(case.get('share'))
-    f = discs_S(pat, at, clock, lat, info, share)
+    opts = s_opts(case)
+    if case.get('proto_event'):
+        opts['proto_event'] = True
+    f = discs_S(pat, at, clock, lat, info, opts)
     out = {}
     for disc in sorted(f):
         e, o, det = f[disc]
-        node = blame(pat, at, clock, lat, disc)
+        node = blame(pat, at, clock, lat, disc, opts)
         kind = f'S:{disc}:{label(node)}'
         if share and node is pat:
             kind += '@shared-object'
+        if opts.get('proto') is not None and any(
+                k in opts['proto'] for k in ('stretch', 'dur')):
+            kind += '@input-event-time-keys'
+        if node is pat and opts.get('via', 'play') != 'play':
+            kind += '@' + opts['via']
+        if node is pat and opts.get('again') is not None:
+            kind += '@played-twice'
         if clock == 'tempo' and node is pat and pat[0] == 'Pbind':
             kind += '@TempoClock'
         if node is not pat:
@@ -1367,23 +1919,49 @@ from sc3.base.main import main
 from sc3.seq.event import event, Rest
 from sc3.seq.scale import Scale, Tuning
 from sc3.seq.patterns.eventpatterns import Pbind, Pmono, Ppar, Pchain
-from sc3.seq.patterns.filterpatterns import Pdur, Pdelta
+from sc3.seq.patterns.filterpatterns import Pdur, Pdelta, Pconst
 from sc3.seq.patterns.listpatterns import Pseq
 from sc3.seq.patterns.valuepatterns import Pseries
+from sc3.seq.eventstream import EventStreamPlayer
+from sc3.base import stream as stm
+from sc3.base.netaddr import NetAddr
 inf = float('inf')
-def instrument(name, controls):
+def instrument(name, controls, defaults={}, variants=None):
     ns = {'Out': Out, 'DC': DC}
     exec('def f(%s):\\n    Out.ar(0, DC.ar(0))' % ', '.join(
-        c + '=0.5' for c in controls), ns)
-    SynthDef(name, ns['f']).add()
+        c + '=' + defaults.get(c, '0.5') for c in controls), ns)
+    SynthDef(name, ns['f'], variants=variants).add()
 '''
+
+
+def src_instrument(name):
+    if name in XINSTR:
+        if XINSTR[name] is None:
+            return f'# {name!r} is not registered'
+        return (f'instrument({name!r}, {XINSTR[name]!r}, {X_DEFAULTS!r}, '
+                f'{X_VARIANTS.get(name)!r})')
+    return f'instrument({name!r}, {ctrls_of(name)!r})'
 
 
 def src_value(key, v):
     if ref.is_rest_marker(v):
         return 'Rest()' if v['Rest'] is None else f'Rest({v["Rest"]!r})'
+    if key == 'server':
+        return 'other'
+    if isinstance(v, dict) and 'tuple' in v:
+        return repr(tuple(v['tuple']))
+    if isinstance(v, dict) and 'Group' in v:
+        return f'Group.basic_new(s, {v["Group"]})'
+    if isinstance(v, dict) and 'Synth' in v:
+        return f'Synth.basic_new({instr_name(FULL)!r}, s, {v["Synth"]})'
     if key == 'scale':
         sp = ref.SCALES[v]
+        if v == 'chromatic_cm':
+            return 'Scale.chromatic(Tuning.et(12))'
+        if v == 'major_et12':
+            return f'Scale({tuple(sp["degrees"])!r}, Tuning.et(12))'
+        if v == 'whole_rng':
+            return 'Scale(range(0, 12, 2))'
         if sp['tuning'] is None:
             return f'Scale({sp["degrees"]!r})'
         return (f'Scale({sp["degrees"]!r}, Tuning({sp["tuning"]!r}, '
@@ -1391,33 +1969,67 @@ def src_value(key, v):
     return repr(v)
 
 
+def src_vp(k, v):
+    if isinstance(v, list) and v and v[0] == 'Pseq':
+        def item(i):
+            if '+' in k:
+                return '(' + ', '.join(src_value(kk, x) for kk, x in
+                                       zip(k.split('+'), i)) + ')'
+            return src_value(k, i)
+        return 'Pseq([%s], %s)' % (', '.join(item(i) for i in v[1]),
+                                   'inf' if v[2] == 'inf' else v[2])
+    if isinstance(v, list) and v and v[0] == 'Pseries':
+        return f'Pseries({v[1]!r}, {v[2]!r})'
+    if isinstance(v, list) and v and v[0] == 'Pconst':
+        return f'Pconst({src_vp(k, v[1])}, {v[2]!r})'
+    return src_value(k, v)
+
+
 def src_dict(d, vp=False):
     items = []
     for k, v in d.items():
-        if vp and isinstance(v, list):
-            if v[0] == 'Pseq':
-                s = 'Pseq([%s], %s)' % (', '.join(src_value(k, i)
-                                                  for i in v[1]),
-                                        'inf' if v[2] == 'inf' else v[2])
-            else:
-                s = f'Pseries({v[1]!r}, {v[2]!r})'
-        else:
-            s = src_value(k, v)
-        items.append(f'{k!r}: {s}')
+        s = src_vp(k, v) if vp else src_value(k, v)
+        kk = tuple(k.split('+')) if vp and '+' in k else k
+        items.append(f'{kk!r}: {s}')
     return '{' + ', '.join(items) + '}'
 
 
-def src_pattern(p):
+def src_pattern(p, names=None):
+    """names (a dict with a 'defs' list): structurally equal sub-patterns
+    become one variable (one library object embedded several times)."""
+    if names is None:
+        return _src_pattern(p, None)
+    k = core.canon(p)
+    if k not in names:
+        src = _src_pattern(p, names)          # defines the children first
+        names[k] = f'p{len(names)}'
+        names['defs'].append(f'{names[k]} = {src}')
+    return names[k]
+
+
+def _src_pattern(p, names):
     h = p[0]
+
+    def sub(c):
+        return src_pattern(c, names)
     if h == 'Pbind':
         return f'Pbind({src_dict(p[1], True)})'
     if h == 'Pmono':
-        return f'Pmono({p[1]!r}, {src_dict(p[2], True)})'
+        extra = ', articulate=True' if pat_opts(p, 3).get('articulate') \
+            else ''
+        return f'Pmono({p[1]!r}, {src_dict(p[2], True)}{extra})'
+    if h == 'Pchain' and pat_opts(p, 2).get('chain'):
+        return f'Pchain({sub(p[1][0])})' + ''.join(
+            f'.chain({sub(c)})' for c in p[1][1:])
     if h in ('Ppar', 'Pchain'):
-        return f'{h}(' + ', '.join(src_pattern(c) for c in p[1]) + ')'
+        return f'{h}(' + ', '.join(sub(c) for c in p[1]) + ')'
     if h == 'Pseq':
-        return 'Pseq([' + ', '.join(src_pattern(c) for c in p[1]) + '])'
-    return f'{h}({p[1]!r}, {src_pattern(p[2])})'
+        return 'Pseq([' + ', '.join(sub(c) for c in p[1]) + '])'
+    if h == 'Pdur':
+        q = pat_opts(p, 3).get('quant')
+        extra = '' if q is None else f', quant={q!r}'
+        return f'Pdur({p[1]!r}, {sub(p[2])}{extra})'
+    return f'{h}({src_value("dur", p[1])}, {sub(p[2])})'
 
 
 def instruments_in(obj, acc):
@@ -1453,11 +2065,24 @@ def standalone(case):
         plays = []
         for e in case['events']:
             name = instr_name(e['instr'])
-            lines.append(f'instrument({name!r}, {ctrls_of(name)!r})')
+            lines.append(src_instrument(name))
             if e['wait']:
                 plays.append(f'yield {e["wait"]!r}')
-            plays.append(f'event({src_dict(e["given"])}, '
-                         f'instrument={name!r}).play()')
+            if e['given'].get('server') == 'other':
+                lines.append("other = Server('c14other', NetAddr('127.0.0.1',"
+                             " 57999))")
+                lines.append(f'other.latency = {case["lat"]!r} + '
+                             f'{OTHER_LAT_OFFSET!r}')
+            d = src_dict(dict(e['given'], instrument=name))
+            via = e.get('via', 'method')
+            plays.append({'method': f'event({d}).play()',
+                          'play_dict': f'play({d})',
+                          'play_kwargs': f'play(**{d})',
+                          'play_obj': f'play(event({d}))',
+                          'play_dict_kwargs': f'play({{}}, **{d})',
+                          'ctor_kwargs': f'event(**{d}).play()',
+                          'ctor_mixed': f'event({{}}, **{d}).play()',
+                          'ctor_copy': f'event(event({d})).play()'}[via])
         lines.append('main.reset()')
     elif fam == 'R':
         at, lat = case['at'], case['lat']
@@ -1480,8 +2105,38 @@ def standalone(case):
         for name in sorted(instruments_in(case['pat'], set())):
             lines.append(f'instrument({name!r}, {ctrls_of(name)!r})')
         lines.append('main.reset()')
-        clock = 'TempoClock(1)' if case['clock'] == 'tempo' else ''
-        plays = [f'{src_pattern(case["pat"])}.play({clock})']
+        names = {'defs': []} if case.get('share') else None
+        top = src_pattern(case['pat'], names)
+        if names is None:
+            lines.append(f'pat = {top}')
+            top = 'pat'
+        else:
+            lines += names['defs']
+        args = ['TempoClock(1)'] if case['clock'] == 'tempo' else []
+        proto = None
+        if case.get('proto') is not None:
+            proto = src_dict(case['proto'])
+            if case.get('proto_event'):
+                proto = f'event({proto})'
+        via = case.get('via', 'play')
+        if via == 'play':
+            if proto:
+                args.append(f'proto={proto}')
+            one = f'{top}.play({", ".join(args)})'
+        elif via == 'fn':
+            if proto:
+                args.append(f'proto={proto}')
+            one = f'play({", ".join([top] + args)})'
+        else:
+            esp = f'EventStreamPlayer(stm.stream({top})' + \
+                (f', {proto})' if proto else ')')
+            args = args or ['None']
+            if via == 'esp_reset':
+                args.append('reset=True')
+            one = f'{esp}.play({", ".join(args)})'
+        plays = [one]
+        if case.get('again') is not None:
+            plays += [f'yield {case["again"]!r}', one]
     lines.append(f's.latency = {lat!r}')
     if at is None and not any(p.startswith('yield') for p in plays):
         lines += plays
@@ -1562,6 +2217,9 @@ def part_cases(job):
         return gen_P(tier, job['mask'])
     if part == 'Pp':
         return gen_P_pairs(tier)
+    if part == 'Px':
+        return itertools.islice(gen_P_ext(tier), job['shard'], None,
+                                job['of'])
     if part == 'S':
         return itertools.islice(cases_S(tier), job['shard'], None,
                                 job['of'])
@@ -1575,6 +2233,7 @@ def jobs(tier):
     js += [{'part': 'Kr', 'shard': i, 'of': 8} for i in range(8)]
     js += [{'part': 'P', 'mask': m} for m in range(64)]
     js += [{'part': 'Pp'}]
+    js += [{'part': 'Px', 'shard': i, 'of': 16} for i in range(16)]
     js += [{'part': 'S', 'shard': i, 'of': 32} for i in range(32)]
     js += [{'part': 'R', 'shard': i, 'of': 4} for i in range(4)]
     for j in js:
@@ -1609,9 +2268,17 @@ def main(ctx):
         'event(key) lookups and the played message; (P) 64 instruments '
         '(every subset of 6 controls) x 72 events defining subsets of the '
         'control keys x time/latency/duration/add-action/group contexts, '
-        'plus pairs of events in one routine; (S) Pbind/Pmono/Pchain/Ppar/'
-        'Pdur/Pdelta/Pseq compositions over every dur sequence of bounded '
-        'length over {0.25,0.5,1} with rests; (R) 8 instruments x 3 events '
+        'plus pairs of events in one routine, plus 64 '
+        'instruments x 6 events with zero/negative values x 52 contexts (20 '
+        'add-action spellings, group objects, second server, zero sustain, '
+        'non-dyadic times, 4 play() entry points, 3 constructor forms), an '
+        'arrayed control, the '
+        'variant key, an unregistered instrument; (S) Pbind/Pmono/Pchain/'
+        'Ppar/Pdur/Pdelta/Pseq compositions over every dur sequence of '
+        'bounded length over {0.25,0.5,1} with rests (5 spellings), Pconst-'
+        'limited durs, Pdur(quant), key sets, zero deltas, input events '
+        '(proto, right operand of Pchain), chain(), play()/EventStreamPlayer '
+        'entry points, a pattern played twice, PmonoArtic; (R) 8 instruments x 3 events '
         'x 7 key changes x {in place, copy(), proto of a Pbind} x time/'
         'latency: play, change, play again. Non-trivial: (K) >=2 keys of '
         'one chain collide or a modifier/scale meets an explicit main key; '
@@ -1624,6 +2291,10 @@ def main(ctx):
         'SuperCollider Event/Scale/Tuning/Pbind/Pmono/Ppar/Pchain/Pfindur '
         'help and this library\'s comments; don\'t-cares: ctranspose on the '
         'degree path, harmonic on an explicit freq and in the freq lookup, '
+        'the name sent for a variant (name or name.variant), controls and '
+        'release of an instrument that is not registered, whether a Pdelta '
+        'or a quant rest below a stretching input event is stretched (not '
+        'generated), '
         'modifiers without any main pitch key, reverse conversions, db and '
         'velocity together, note/gtranspose/root units for tunings without '
         '12 steps, presence of default-event controls (amp, pan, out, freq) '
@@ -1635,10 +2306,12 @@ def main(ctx):
         'legato 0.8 and the S5b family)',
         f'player runs are guarded by a budget of {CALL_BUDGET} python calls']
     ctx.extra['call_budget'] = CALL_BUDGET
-    bound = ('K: 1 value/modifier, 5 scales; P: 4 contexts; S: dur '
-             'sequences <=3 (Ppar x3: <=2)') if ctx.tier == 'quick' else \
-        ('K: up to 2 values/modifier, 7 scales/tunings, chain cross; P: 64 '
-         'contexts; S: dur sequences <=4 (Ppar/Pdur: <=3)')
+    bound = ('K: 1 value/modifier, 8 scales; P: 4 contexts + 52 extension '
+             'contexts on 64 instruments; S: dur sequences <=3 (Ppar x3, '
+             'Pconst, input events: <=2)') if ctx.tier == 'quick' else \
+        ('K: up to 2 values/modifier, 10 scales/tunings, chain cross; P: 64 '
+         'contexts + 52 extension contexts on 64 instruments; S: dur '
+         'sequences <=4 (Ppar/Pdur/Pconst: <=3)')
     ctx.extra['space'] = bound
     progenum.run(ctx, MODNAME, 'work', jobs(ctx.tier), mode='nrt',
                  bound=ctx.tier,
@@ -1660,4 +2333,84 @@ def pred_scale_is(v, names=(), scale_fn=None, **params):
         (scale_fn is None or bool(c.get('scale_fn')) == scale_fn)
 
 
-PREDICATES = {'pattern_has': pred_pattern_has, 'scale_is': pred_scale_is}
+def _nodes(p):
+    yield p
+    for c in pat_children(p):
+        yield from _nodes(c)
+
+
+def _input_stretches(case):
+    """stretch values of the input events of the case: Pattern.play(proto=)
+    and the constant right operand of a Pchain."""
+    out = []
+    if case.get('proto') and 'stretch' in case['proto']:
+        out.append(case['proto']['stretch'])
+    for n in _nodes(case['pat']):
+        if n[0] == 'Pchain' and len(n[1]) == 2 and n[1][1][0] == 'Pbind' \
+                and n[1][0][0] != 'Pbind' and 'stretch' in n[1][1][1]:
+            out.append(n[1][1][1]['stretch'])
+    return out
+
+
+def pred_ppar_stretched_input(v, **params):
+    """A Ppar whose input event has a stretch other than 1."""
+    c = v['case']
+    return c.get('fam') == 'S' and 'Ppar' in pat_heads(c['pat']) and \
+        any(x != 1 for x in _input_stretches(c))
+
+
+def pred_pdur_int_delta(v, **params):
+    """A Pdur that cuts an event whose delta is an int: int dur values
+    under an int stretch (of the input event or of the leaf), or an explicit
+    int delta."""
+    c = v['case']
+    if c.get('fam') != 'S' or 'Pdur' not in pat_heads(c['pat']):
+        return False
+    if any(isinstance(x, int) for x in _input_stretches(c)):
+        return True
+    for n in _nodes(c['pat']):
+        if n[0] == 'Pdur':
+            for k in _nodes(n[2]):
+                if k[0] == 'Pbind' and (
+                        isinstance(k[1].get('stretch'), int) or
+                        isinstance(k[1].get('delta'), int)):
+                    return True
+    return False
+
+
+def pred_ppar_rest_delta(v, **params):
+    """A Ppar child that writes a rest as a Rest-valued delta key."""
+    c = v['case']
+    if c.get('fam') != 'S':
+        return False
+    for n in _nodes(c['pat']):
+        if n[0] == 'Ppar':
+            for k in n[1]:
+                d = k[1] if k[0] == 'Pbind' else None
+                vp = (d or {}).get('delta')
+                if isinstance(vp, list) and vp[0] == 'Pseq' and \
+                        any(ref.is_rest_marker(i) for i in vp[1]):
+                    return True
+    return False
+
+
+def pred_variant_key(v, **params):
+    c = v['case']
+    return c.get('fam') == 'P' and \
+        all('variant' in e['given'] for e in c['events']) and \
+        "'bool' object is not callable" in str(v.get('observed'))
+
+
+def pred_unregistered_instrument(v, **params):
+    c = v['case']
+    return c.get('fam') == 'P' and \
+        all(e['instr'] == 'c14none' for e in c['events']) and \
+        'KeyError' in str(v.get('observed'))
+
+
+PREDICATES = {'pattern_has': pred_pattern_has, 'scale_is': pred_scale_is,
+              'ppar_stretched_input': pred_ppar_stretched_input,
+              'pdur_int_delta': pred_pdur_int_delta,
+              'ppar_rest_delta': pred_ppar_rest_delta,
+              'variant_key': pred_variant_key,
+              'unregistered_instrument': pred_unregistered_instrument}
